@@ -134,6 +134,24 @@ func drvClient(c *ctx) error {
 		var given interface{}
 		var gotBase backend.BasePayloadResult
 		var callErr error
+		if c.rnd.Intn(4) == 0 {
+			// a call that fails before anything is sent (context already cancelled, or nobody listening): not recorded; whatever
+			// it leaves behind must not reach the peer of the next call
+			observe(func() error {
+				cctx, cancel := context.WithCancel(context.Background())
+				cancel()
+				fcl := cl
+				if c.rnd.Intn(2) == 0 {
+					fcl, _ = backend.NewClient(backend.ClientConfig{SenderID: sender, ReceiverID: receiver, Server: "http://127.0.0.1:1/"})
+					cctx = context.Background()
+				}
+				if fcl != nil {
+					fcl.ProfileReq(cctx, backend.ProfileReqPayload{BasePayload: backend.BasePayload{TransactionID: c.rnd.Uint32()}, DevEUI: dev})
+					fcl.SendAnswer(cctx, backend.XmitDataAnsPayload{})
+				}
+				return nil
+			})
+		}
 		seenBody, sentBody = nil, nil
 		res, _ := observe(func() error {
 			switch method {
